@@ -528,6 +528,8 @@ def rule_empty_delta(ctx, rule='R06.10'):
 
 
 def run(ctx):
+    from . import pyrules
+    pyrules.rule_selector_truthiness(ctx, 'R06.11', ('Simulation', 'Simulationarchive'))   # snapshot 0 is a snapshot
     rule_empty_delta(ctx)
     rule_counter_update(ctx)
     rule_index_growth(ctx)
